@@ -3,6 +3,7 @@ import GoatProofs.Lemmas.C16PtClosure
 import Mathlib.Algebra.Group.MinimalAxioms
 import GoatProofs.Lemmas.C16PtAssocPoly
 import GoatProofs.Primes
+import Goat.Gen.Edwards448Facts
 import GoatProofs.Group
 /-
 C16 (points part) — edwards448 points implement the Ed448-Goldilocks group.
@@ -352,5 +353,29 @@ theorem doubleScalarMult_correct_closed {A : Model.Ed448Pt.Point} {g : theGroup.
     ∃ R, Model.Ed448Pt.doubleScalarBaseMult a A b = .ok R ∧
       GRep theGroup R ((Bytes.decodeLE a : ℤ) • g + (Bytes.decodeLE b : ℤ) • theGroup.B) :=
   doubleScalarMult_correct theGroup q_prime hA a b hla hlb hVa hVb
+
+/-! ## the model's "arguments are values, the receiver is the result" reading of internal/edwards448
+
+The point and scalar models are functions of the argument VALUES producing a new receiver value.
+For the Go code this means: no function modifies an object it received as a parameter.  Regenerated
+syntactic facts (`translator/edwards448facts.go`, go/ast): for every function, the parameters (the
+receiver excluded) that are used as receiver of a mutating method, assigned through, or handed to an
+output position.  The harness stream `argument unchanged` exercises the same on real objects. -/
+
+/-- in internal/edwards448/*.go the only parameters ever modified are the documented output
+    parameters: `buf` of `bytes`/`copyFieldElement`, `s` of `scMulAdd`, `out` of `scReduce`, `dest` of the
+    three `SelectInto`; in particular no `Init`, no point operation and no scalar multiplication
+    modifies a point or scalar argument (a `q2 := q.Add(q, q)` slip breaks this) -/
+theorem edwards448_args_readonly :
+    Gen.Edwards448Facts.paramMutations.filter (fun f => !f.2.isEmpty) =
+      [("Point.bytes", ["buf"]), ("copyFieldElement", ["buf"]), ("scMulAdd", ["s"]), ("scReduce", ["out"]),
+       ("lookupTable.SelectInto", ["dest"]), ("nafLookupTable5.SelectInto", ["dest"]),
+       ("nafLookupTable8.SelectInto", ["dest"])] ∧
+    Gen.Edwards448Facts.paramMutations.lookup "nafLookupTable5.Init" = some [] ∧
+    Gen.Edwards448Facts.paramMutations.lookup "nafLookupTable8.Init" = some [] ∧
+    Gen.Edwards448Facts.paramMutations.lookup "lookupTable.Init" = some [] ∧
+    Gen.Edwards448Facts.paramMutations.lookup "Point.VarTimeDoubleScalarBaseMult" = some [] ∧
+    Gen.Edwards448Facts.paramMutations.lookup "Point.ScalarMult" = some [] := by
+  decide
 
 end C16Pt
